@@ -31,7 +31,7 @@ use vh::*;
 
 const NW: usize = 4;
 /// T3 lines reported per (property, message shape); the rest is counted in a `#NOTE`
-const T3_CAP: u64 = 8;
+const T3_CAP: u64 = 4;
 
 // ------------------------------------------------------------------------------------------------
 // counting wakers
@@ -453,16 +453,28 @@ fn chan_op(e: &mut ChanEng, ws: &[&str], wk: &mut Wakers, rep: &mut Report, t3: 
 // ------------------------------------------------------------------------------------------------
 
 /// C17 exhaustive: every sequence of exactly `len` applicable operations over
-/// {acquire, drop g (every live guard), avail w0|w1, clone (at most `max_clones`)}; the last handle
+/// {acquire, drop g, avail with waker 0..wakers, clone (at most `max_clones`)}; the newest handle
 /// acquires, handle 0 is asked, `total` is read through the newest handle at the end.
-fn gen_counter_exhaustive(w: &mut dyn Write, cap: usize, len: usize, max_clones: usize, all_guards: bool, n: &mut u64) {
+/// `all_guards`: every live guard may be dropped; otherwise only the oldest and the newest one once
+/// more than two are alive (guards are interchangeable clones of one `Rc`).
+#[derive(Clone, Copy)]
+struct CxCfg {
+    cap: usize,
+    len: usize,
+    max_clones: usize,
+    all_guards: bool,
+    wakers: usize,
+}
+fn gen_counter_exhaustive(w: &mut dyn Write, cfg: CxCfg, n: &mut u64) {
+    let CxCfg { cap, len, max_clones, all_guards, wakers } = cfg;
     struct St {
         ops: Vec<String>,
         live: Vec<usize>,
         next_guard: usize,
         handles: usize,
     }
-    fn rec(w: &mut dyn Write, st: &mut St, cap: usize, len: usize, max_clones: usize, all_guards: bool, n: &mut u64) {
+    fn rec(w: &mut dyn Write, st: &mut St, cfg: CxCfg, n: &mut u64) {
+        let CxCfg { cap, len, max_clones, all_guards, wakers } = cfg;
         if st.ops.len() == len {
             *n += 1;
             writeln!(w, "case cx{}-{} counter {cap}", cap, *n).unwrap();
@@ -476,7 +488,7 @@ fn gen_counter_exhaustive(w: &mut dyn Write, cap: usize, len: usize, max_clones:
         st.ops.push(format!("acquire {}", st.handles - 1));
         st.live.push(st.next_guard);
         st.next_guard += 1;
-        rec(w, st, cap, len, max_clones, all_guards, n);
+        rec(w, st, cfg, n);
         st.next_guard -= 1;
         st.live.pop();
         st.ops.pop();
@@ -489,27 +501,28 @@ fn gen_counter_exhaustive(w: &mut dyn Write, cap: usize, len: usize, max_clones:
         for k in cands {
             let g = st.live.remove(k);
             st.ops.push(format!("drop {g}"));
-            rec(w, st, cap, len, max_clones, all_guards, n);
+            rec(w, st, cfg, n);
             st.ops.pop();
             st.live.insert(k, g);
         }
         // avail
-        for wk in 0..2 {
+        for wk in 0..wakers {
             st.ops.push(format!("avail 0 {wk}"));
-            rec(w, st, cap, len, max_clones, all_guards, n);
+            rec(w, st, cfg, n);
             st.ops.pop();
         }
         // clone
         if st.handles - 1 < max_clones {
             st.ops.push(format!("clone {}", st.handles - 1));
             st.handles += 1;
-            rec(w, st, cap, len, max_clones, all_guards, n);
+            rec(w, st, cfg, n);
             st.handles -= 1;
             st.ops.pop();
         }
     }
     let mut st = St { ops: vec![], live: vec![], next_guard: 0, handles: 1 };
-    rec(w, &mut st, cap, len, max_clones, all_guards, n);
+    let _ = (cap, len, max_clones, all_guards, wakers);
+    rec(w, &mut st, cfg, n);
 }
 
 fn gen_lw_exhaustive(w: &mut dyn Write, len: usize, n: &mut u64) {
@@ -567,15 +580,11 @@ fn gen_counter_random(w: &mut dyn Write, rng: &mut Rng, cases: usize, max_len: u
 fn gen_c17(a: &Args, w: &mut dyn Write) {
     let thorough = a.tier == "thorough";
     let mut n = 0u64;
-    // (1) exhaustive, every live guard droppable, one clone allowed
-    let l1 = if thorough { 7 } else { 6 };
     for cap in 0..=3 {
-        gen_counter_exhaustive(w, cap, l1, 1, true, &mut n);
-    }
-    // (2) exhaustive and longer, no clone, oldest/newest guard only once three are alive
-    let l2 = if thorough { 9 } else { 7 };
-    for cap in 0..=3 {
-        gen_counter_exhaustive(w, cap, l2, 0, false, &mut n);
+        // (1) every live guard droppable, one clone allowed, two wakers
+        gen_counter_exhaustive(w, CxCfg { cap, len: if thorough { 7 } else { 6 }, max_clones: 1, all_guards: true, wakers: 2 }, &mut n);
+        // (2) longer, no clone, oldest/newest guard only once three are alive
+        gen_counter_exhaustive(w, CxCfg { cap, len: if thorough { 9 } else { 7 }, max_clones: 0, all_guards: false, wakers: 2 }, &mut n);
     }
     // (3) LocalWaker: all register/wake/take sequences with 2 wakers
     let mut m = 0u64;
@@ -590,7 +599,17 @@ fn gen_c17(a: &Args, w: &mut dyn Write) {
 /// `max_senders` live senders.  `send` through every live sender, `dropS` of every live sender,
 /// `clone`/`close` through the oldest live sender (which one is immaterial: they share the `Rc`),
 /// `poll` with waker 0 or 1, `rsender`, `dropR`.
-fn gen_chan_exhaustive(w: &mut dyn Write, len: usize, max_senders: usize, n: &mut u64) {
+/// `sym` (deeper tier): senders are interchangeable clones of one `Rc`, so `send` goes through the
+/// oldest live sender only and `dropS` drops the oldest or the newest one; `wakers` = number of
+/// distinct wakers used by `poll`.
+#[derive(Clone, Copy)]
+struct ChCfg {
+    len: usize,
+    max_senders: usize,
+    sym: bool,
+    wakers: usize,
+}
+fn gen_chan_exhaustive(w: &mut dyn Write, cfg: ChCfg, n: &mut u64) {
     struct St {
         ops: Vec<String>,
         alive: Vec<usize>,
@@ -598,7 +617,8 @@ fn gen_chan_exhaustive(w: &mut dyn Write, len: usize, max_senders: usize, n: &mu
         rx: bool,
         msg: usize,
     }
-    fn rec(w: &mut dyn Write, st: &mut St, len: usize, max_senders: usize, n: &mut u64) {
+    fn rec(w: &mut dyn Write, st: &mut St, cfg: ChCfg, n: &mut u64) {
+        let ChCfg { len, max_senders, sym, wakers } = cfg;
         if st.ops.len() == len {
             *n += 1;
             writeln!(w, "case ch-{} chan", *n).unwrap();
@@ -609,30 +629,33 @@ fn gen_chan_exhaustive(w: &mut dyn Write, len: usize, max_senders: usize, n: &mu
         }
         let alive = st.alive.clone();
         let mut dead_end = true;
-        for &i in &alive {
+        for &i in alive.iter().take(if sym { 1 } else { usize::MAX }) {
             dead_end = false;
             st.msg += 1;
             st.ops.push(format!("send {i} {}", st.msg));
-            rec(w, st, len, max_senders, n);
+            rec(w, st, cfg, n);
             st.ops.pop();
             st.msg -= 1;
         }
         for (k, &i) in alive.iter().enumerate() {
+            if sym && k != 0 && k != alive.len() - 1 {
+                continue;
+            }
             st.ops.push(format!("dropS {i}"));
             st.alive.remove(k);
-            rec(w, st, len, max_senders, n);
+            rec(w, st, cfg, n);
             st.alive.insert(k, i);
             st.ops.pop();
         }
         if let Some(&i) = alive.first() {
             st.ops.push(format!("close {i}"));
-            rec(w, st, len, max_senders, n);
+            rec(w, st, cfg, n);
             st.ops.pop();
             if alive.len() < max_senders {
                 st.ops.push(format!("clone {i}"));
                 st.alive.push(st.next_sender);
                 st.next_sender += 1;
-                rec(w, st, len, max_senders, n);
+                rec(w, st, cfg, n);
                 st.next_sender -= 1;
                 st.alive.pop();
                 st.ops.pop();
@@ -640,23 +663,23 @@ fn gen_chan_exhaustive(w: &mut dyn Write, len: usize, max_senders: usize, n: &mu
         }
         if st.rx {
             dead_end = false;
-            for wk in 0..2 {
+            for wk in 0..wakers {
                 st.ops.push(format!("poll {wk}"));
-                rec(w, st, len, max_senders, n);
+                rec(w, st, cfg, n);
                 st.ops.pop();
             }
             if alive.len() < max_senders {
                 st.ops.push("rsender".into());
                 st.alive.push(st.next_sender);
                 st.next_sender += 1;
-                rec(w, st, len, max_senders, n);
+                rec(w, st, cfg, n);
                 st.next_sender -= 1;
                 st.alive.pop();
                 st.ops.pop();
             }
             st.ops.push("dropR".into());
             st.rx = false;
-            rec(w, st, len, max_senders, n);
+            rec(w, st, cfg, n);
             st.rx = true;
             st.ops.pop();
         }
@@ -670,7 +693,7 @@ fn gen_chan_exhaustive(w: &mut dyn Write, len: usize, max_senders: usize, n: &mu
         }
     }
     let mut st = St { ops: vec![], alive: vec![0], next_sender: 1, rx: true, msg: 0 };
-    rec(w, &mut st, len, max_senders, n);
+    rec(w, &mut st, cfg, n);
 }
 
 fn gen_chan_random(w: &mut dyn Write, rng: &mut Rng, cases: usize, max_len: usize) {
@@ -716,7 +739,10 @@ fn gen_chan_random(w: &mut dyn Write, rng: &mut Rng, cases: usize, max_len: usiz
 fn gen_c16(a: &Args, w: &mut dyn Write) {
     let thorough = a.tier == "thorough";
     let mut n = 0u64;
-    gen_chan_exhaustive(w, if thorough { 7 } else { 6 }, 3, &mut n);
+    gen_chan_exhaustive(w, ChCfg { len: 6, max_senders: 3, sym: false, wakers: 2 }, &mut n);
+    if thorough {
+        gen_chan_exhaustive(w, ChCfg { len: 7, max_senders: 3, sym: true, wakers: 2 }, &mut n);
+    }
     let mut rng = Rng::new(a.seed ^ 0x16);
     gen_chan_random(w, &mut rng, if thorough { 30000 } else { 2000 }, 40);
     eprintln!("C16 gen: {n} exhaustive channel cases");
